@@ -99,7 +99,8 @@ theorem dex_names_accepted :
       dexMatch s.toList = true ∧ multidexMatch s.toList = true := by
   decide
 
-/-- Reading an entry returns its content (names distinct, as in a dict-keyed central directory). -/
+/-- (about the dict itself: an association list with DISTINCT keys; for the archive with possibly
+    repeated names see `archive_get_file_spec` below) Reading a key returns its value. -/
 theorem get_file_spec (entries : List (Name × Bytes)) (n : Name) (b : Bytes)
     (hmem : (n, b) ∈ entries) (hnd : (getFiles entries).Nodup) :
     getFile entries n = .ok b :=
@@ -145,6 +146,75 @@ theorem multidex_all_dex (entries : List (Name × Bytes)) :
     isMultidex (getFiles entries) = true ↔ 1 < (getAllDex entries).length := by
   rw [multidex_spec]; simp [getAllDex]
 
+/-! ### the archive as its central directory — names MAY repeat (independent Spec/ApkFiles.lean)
+
+`cd` is the sequence of central-directory file headers (name, uncompressed content of the member) in
+directory order.  `dictOf cd` is the name-keyed dict apkInspector builds from it (`d[name] = entry` per
+header); the real `get_files` / `get_file` / `get_dex_names` / `get_all_dex` / `is_multidex` are the
+functions above applied to that dict.  No `Nodup` hypothesis: for a repeated name the behaviour is
+spelled out by the specification (`listed`: once, at its first position; `contentOf`: the LAST
+header's content) and tied to the real code and to `zipfile` by the `duplicates` correspondence stream.
+Decoding the zip container into `cd` (apkInspector, zlib) remains OUTSIDE the model. -/
+
+/-- `get_files` lists every header name exactly once, in first-occurrence order. -/
+theorem archive_files_spec (cd : List (Name × Bytes)) :
+    getFiles (dictOf cd) = Spec.ApkFiles.listed (cd.map Prod.fst) ∧
+    (getFiles (dictOf cd)).Nodup ∧ (getFiles (dictOf cd)).Sublist (cd.map Prod.fst) ∧
+    (∀ n, n ∈ getFiles (dictOf cd) ↔ n ∈ cd.map Prod.fst) ∧
+    ((cd.map Prod.fst).Nodup → getFiles (dictOf cd) = cd.map Prod.fst) := by
+  rw [dictOf_keys]
+  exact ⟨rfl, listed_nodup _, listed_sublist _, mem_listed _, listed_of_nodup _⟩
+
+/-- `get_file n` returns the content the specification assigns to `n` — that of the LAST header named
+    `n` — and raises FileNotPresent exactly when no header carries the name. No distinctness needed. -/
+theorem archive_get_file_spec (cd : List (Name × Bytes)) (n : Name) :
+    getFile (dictOf cd) n =
+      match Spec.ApkFiles.contentOf cd n with
+      | some b => .ok b
+      | none => .error .fileNotPresent :=
+  dictOf_getFile cd n
+
+/-- what `contentOf` means: the last header of a name decides (any headers before, none after). -/
+theorem archive_last_header_wins (pre post : List (Name × Bytes)) (n : Name) (b : Bytes)
+    (h : n ∉ post.map Prod.fst) :
+    getFile (dictOf (pre ++ (n, b) :: post)) n = .ok b := by
+  rw [dictOf_getFile, contentOf_last pre post n b h]
+
+/-- a name without header raises FileNotPresent, and only such a name does (names may repeat). -/
+theorem archive_missing_raises (cd : List (Name × Bytes)) (n : Name) :
+    getFile (dictOf cd) n = .error .fileNotPresent ↔ n ∉ cd.map Prod.fst := by
+  rw [dictOf_getFile, ← contentOf_eq_none]
+  cases Spec.ApkFiles.contentOf cd n <;> simp
+
+/-- `get_dex_names` / `is_multidex` / `get_all_dex` over a central directory with repeated names: the
+    DEX names are the listed names satisfying the specification, each once, in first-occurrence
+    order; `get_all_dex` yields for each of them the content of its LAST header, never an error;
+    a DEX name repeated in the directory counts ONCE for the multidex flag. -/
+theorem archive_dex_spec (cd : List (Name × Bytes)) :
+    (∀ n, n ∈ dexNames (getFiles (dictOf cd)) ↔ n ∈ cd.map Prod.fst ∧ Spec.ApkFiles.IsDexName n) ∧
+    (dexNames (getFiles (dictOf cd))).Nodup ∧
+    (dexNames (getFiles (dictOf cd))).Sublist (cd.map Prod.fst) ∧
+    getAllDex (dictOf cd) = (dexNames (Spec.ApkFiles.listed (cd.map Prod.fst))).map (fun n =>
+      match Spec.ApkFiles.contentOf cd n with
+      | some b => .ok b
+      | none => .error .fileNotPresent) ∧
+    (∀ r ∈ getAllDex (dictOf cd), r ≠ .error .fileNotPresent) ∧
+    (isMultidex (getFiles (dictOf cd)) = true ↔
+      1 < ((Spec.ApkFiles.listed (cd.map Prod.fst)).filter dexMatch).length) := by
+  refine ⟨?_, ?_, ?_, getAllDex_dictOf cd, ?_, ?_⟩
+  · intro n
+    rw [dex_names_mem, dictOf_keys, mem_listed]; rfl
+  · rw [dictOf_keys]; exact (listed_nodup _).sublist (dex_names_sublist _)
+  · rw [dictOf_keys]; exact (dex_names_sublist _).trans (listed_sublist _)
+  · rw [getAllDex_dictOf]
+    intro r hr
+    obtain ⟨n, hn, rfl⟩ := List.mem_map.1 hr
+    have hmem : n ∈ cd.map Prod.fst := (mem_listed _ n).1 ((dex_names_sublist _).subset hn)
+    cases h : Spec.ApkFiles.contentOf cd n with
+    | some b => simp
+    | none => exact absurd hmem ((contentOf_eq_none cd n).1 h)
+  · rw [multidex_spec, dictOf_keys]; rfl
+
 /-! ### non-vacuity -/
 
 example : (getFiles sample).Nodup := by decide
@@ -162,5 +232,18 @@ example : IsDexName "classes42.dex".toList := ⟨"42".toList, by decide, by deci
 example : ¬ IsDexName "classes/dex".toList := fun h => by
   have := (dex_name_spec _).2 h; revert this; decide
 example : '/' ∈ "res/classes.dex".toList := by decide
+
+/-- a central directory with repeated names (also a repeated DEX name) -/
+def dupDir : List (Name × Bytes) :=
+  [("a".toList, [1]), ("classes.dex".toList, [10]), ("b".toList, [2, 2]), ("a".toList, [3, 3, 3]),
+   ("classes.dex".toList, [20, 20]), ("a".toList, [])]
+example : getFiles (dictOf dupDir) = ["a".toList, "classes.dex".toList, "b".toList] := by decide
+example : getFile (dictOf dupDir) "a".toList = .ok [] := rfl
+example : getFile (dictOf dupDir) "a".toList = .ok [] :=
+  archive_last_header_wins (dupDir.take 5) [] "a".toList [] (by decide)
+example : getAllDex (dictOf dupDir) = [.ok [20, 20]] := by rfl
+example : isMultidex (getFiles (dictOf dupDir)) = false := by decide
+example : getFile (dictOf dupDir) "c".toList = .error .fileNotPresent :=
+  (archive_missing_raises dupDir _).2 (by decide)
 
 end AgVerif.C34
